@@ -882,6 +882,15 @@ func streamReader(c *corrOut, g *inputGen, r *rng, n int, thorough bool) {
 			op := "X" + strings.TrimPrefix(readerLine(append(append([][]byte(nil), chunks[:len(chunks)-1]...), last), false), "I")
 			c.scope = "C09 C04"
 			c.emit(op, line, "fails-with-data")
+			if st == "ok" && len(last) < 256 {
+				// nothing skipped: bytes that come together with the error are input like any other
+				// (io.Reader: "process the n > 0 bytes returned before considering the error")
+				ref, rst := implReader(append(append([][]byte(nil), chunks[:len(chunks)-1]...), last), false)
+				if rst == "ok" && strings.Join(ref, " | ") != line {
+					c.addFinding(finding{Property: "C09", Class: "new", What: "bytes that a Read returned together with its error were not decoded (input skipped)", Input: op,
+						Expected: strings.Join(ref, " | "), Observed: line})
+				}
+			}
 			if st != "ok" {
 				c.addFinding(finding{Property: "C09", Class: "new", What: "the reader does not stop with the underlying reader's error (a Read returned data together with the error): " + st, Input: op, Observed: line})
 				c.addFinding(finding{Property: "C04", Class: "new", What: "an input read error is not reported (a Read returned data together with the error): " + st, Input: op, Observed: line})
